@@ -13,6 +13,9 @@ use crate::util::{cp, cut_images, list, px_bits, px_fx, tc, Rng, Shards, TC_SUP}
 use crate::Opts;
 
 pub fn to_linear(t: u8, px: &[[f32; 3]], w: usize, h: usize) -> Result<Vec<[f32; 3]>, &'static str> {
+    crate::util::guard2(|| to_linear_inner(t, px, w, h))
+}
+fn to_linear_inner(t: u8, px: &[[f32; 3]], w: usize, h: usize) -> Result<Vec<[f32; 3]>, &'static str> {
     let rgb = Rgb::new(px.to_vec(), w, h, tc(t), cp(1)).map_err(|_| "ctor")?;
     match LinearRgb::try_from(rgb) {
         Ok(l) => {
@@ -25,6 +28,9 @@ pub fn to_linear(t: u8, px: &[[f32; 3]], w: usize, h: usize) -> Result<Vec<[f32;
     }
 }
 pub fn to_gamma(t: u8, px: &[[f32; 3]], w: usize, h: usize) -> Result<Vec<[f32; 3]>, &'static str> {
+    crate::util::guard2(|| to_gamma_inner(t, px, w, h))
+}
+fn to_gamma_inner(t: u8, px: &[[f32; 3]], w: usize, h: usize) -> Result<Vec<[f32; 3]>, &'static str> {
     let lin = LinearRgb::new(px.to_vec(), w, h).map_err(|_| "ctor")?;
     match Rgb::try_from((lin, tc(t), cp(1))) {
         Ok(r) => {
